@@ -278,12 +278,12 @@ func init() {
 	vr.Register("onlyif", checkOnlyIf)
 }
 
-func TestSubseq(t *testing.T) { vr.Prop(t, "subseq", vr.N(8000, 150000), genAny, meta, checkSubseq) }
-func TestBody(t *testing.T)   { vr.Prop(t, "body", vr.N(10000, 200000), genAny, meta, checkBody) }
+func TestSubseq(t *testing.T) { vr.Prop(t, "subseq", vr.N(8000, 100000), genAny, meta, checkSubseq) }
+func TestBody(t *testing.T)   { vr.Prop(t, "body", vr.N(10000, 120000), genAny, meta, checkBody) }
 func TestNoRepeat(t *testing.T) {
-	vr.Prop(t, "norepeat", vr.N(8000, 150000), genNoRepeat, meta, checkNoRepeat)
+	vr.Prop(t, "norepeat", vr.N(8000, 100000), genNoRepeat, meta, checkNoRepeat)
 }
 func TestRunning(t *testing.T) {
-	vr.Prop(t, "running", vr.N(10000, 200000), genMulti, meta, checkRunning)
+	vr.Prop(t, "running", vr.N(10000, 120000), genMulti, meta, checkRunning)
 }
-func TestOnlyIf(t *testing.T) { vr.Prop(t, "onlyif", vr.N(8000, 150000), genAny, meta, checkOnlyIf) }
+func TestOnlyIf(t *testing.T) { vr.Prop(t, "onlyif", vr.N(8000, 100000), genAny, meta, checkOnlyIf) }
